@@ -321,3 +321,51 @@ M("C03", "advance: output_frame twice", AC, "    --acmod->n_feat_frame;\n    ++a
 M("C03", "seg_iter: fill from front", FS, "    cur = itor->n_hist - 1;\n    bp = bpidx;", "    cur = 0;\n    bp = bpidx;", "PROV.S6-order")
 M("C03", "seg_next: off by one end", FS, "    if (++itor->cur == itor->n_hist) {", "    if (++itor->cur == itor->n_hist - 1) {", "PROV.S6-order")
 M("C03", "benign: ascr reordered", FS, "seg->ascr = hist_entry->score - ph->score - seg->lscr;", "seg->ascr = hist_entry->score - (seg->lscr + ph->score);", kind="benign")
+
+PL = "src/ps_lattice.c"
+# ---- C11 ----------------------------------------------------------------------
+M("C11", "lat: node sf without +1", FS, """            ascr = fh->score - pfh->score;
+            sf = pfh->frame + 1;
+        } else {
+            ascr = fh->score;
+            sf = 0;
+        }
+
+        /*
+         * Note that although""", """            ascr = fh->score - pfh->score;
+            sf = pfh->frame;
+        } else {
+            ascr = fh->score;
+            sf = 0;
+        }
+
+        /*
+         * Note that although""", "PROV.L1-keys")
+M("C11", "lat: link pass sf differs", FS, """            sf = pfh->frame + 1;
+            ascr = fh->score - pfh->score;""", """            sf = pfh->frame + 2;
+            ascr = fh->score - pfh->score;""", "TWIN.L2-key-agreement")
+M("C11", "lat: dest at same frame", FS, "        sf = fh->frame + 1;\n", "        sf = fh->frame;\n", "PROV.L1-keys")
+M("C11", "lat: dest state from_state", FS, "if ((dest = find_node(dag, fsg, sf, link->wid, fsg_link_to_state(link))) != NULL)\n                    lattice_link", "if ((dest = find_node(dag, fsg, sf, link->wid, fsg_link_from_state(link))) != NULL)\n                    lattice_link", "PROV.L1-keys")
+M("C11", "lat: link ef is sf", FS, "                    lattice_link(dag, src, dest, ascr, fh->frame);\n            } else {", "                    lattice_link(dag, src, dest, ascr, sf);\n            } else {", "PROV.L1-keys")
+M("C11", "lat: cache ignores frame", FS, "    if (search->dag && search->dag->n_frames == fsgs->frame)\n        return search->dag;", "    if (search->dag)\n        return search->dag;", "GUARD.L3-cache")
+M("C11", "lat: find_node ignores state", FS, "if ((node->sf == sf) && (node->wid == wid) && (node->node_id == node_id))", "if ((node->sf == sf) && (node->wid == wid))", "GUARD.L4-nodes")
+M("C11", "lat: lef min-merge", FS, "        if (node->lef == -1 || node->lef < ef)\n            node->lef = ef;", "        if (node->lef == -1 || node->lef > ef)\n            node->lef = ef;", "GUARD.L4-nodes")
+M("C11", "lat: start deref when 0 cands", FS, "    if (nstart == 1) {\n        node = gnode_ptr(start);", "    if (nstart <= 1) {\n        node = gnode_ptr(start);", "GUARD.L4-nodes")
+M("C11", "lat: end cands need exits", FS, "        if (node->lef == dag->n_frames - 1 && node->entries) {", "        if (node->lef == dag->n_frames - 1 && node->exits) {", "GUARD.L4-nodes")
+M("C11", "lat: wid converted before end node", FS, """    if ((dag->end = find_end_node(fsgs, dag)) == NULL) {
+        E_WARN("Failed to find the end node\\n");
+        goto error_out;
+    }
+""", "", "GUARD.L4-nodes")
+M("C11", "lat: link not in entries", PL, "        revlink->next = to->entries;\n        to->entries = revlink;", "        revlink->next = to->entries;", "PROV.L5-link")
+M("C11", "lat: link merge keeps worse", PL, "        if (score BETTER_THAN fwdlink->link->ascr) {\n            fwdlink->link->ascr = score;", "        if (score WORSE_THAN fwdlink->link->ascr) {\n            fwdlink->link->ascr = score;", "PROV.L5-link")
+M("C11", "lat: delete marks wrong side", PL, "        x->link->from = NULL;\n        listelem_free(dag->latlink_list_alloc, x);\n    }\n    for (x = node->entries", "        x->link->to = NULL;\n        listelem_free(dag->latlink_list_alloc, x);\n    }\n    for (x = node->entries", "TYPESTATE.L6-unreachable")
+M("C11", "lat: unreachable not unlinked", PL, """            if (prev_node)
+                prev_node->next = next_node;
+            else
+                dag->nodes = next_node;
+            /* Delete this node""", """            if (prev_node)
+                prev_node->next = next_node;
+            /* Delete this node""", "TYPESTATE.L6-unreachable")
+M("C11", "lat: mark reachable from start", FS, "    mark_reachable(dag, dag->end);", "    mark_reachable(dag, dag->start);", "GUARD.L4-nodes")
+M("C11", "lat benign: reorder key compare", FS, "if ((node->sf == sf) && (node->wid == wid) && (node->node_id == node_id))", "if ((node->node_id == node_id) && (wid == node->wid) && (node->sf == sf))", kind="benign")
